@@ -1,3 +1,227 @@
-/-! Model for property C02 (core Lean only; no Mathlib). -/
+/-! Model for property C02, part 1: the leg-permutation machine of `pytreenet/core/node.py`
+(`Node` on top of `GraphNode`).  Core Lean only.
+
+State of a node (`NodeS`):
+* `perm`     ↔ `Node._leg_permutation` (values = axes of the stored array, positions = logical legs
+               in the convention (parent, children…, open…))
+* `shp`      ↔ `Node._shape` (shape of the stored array)
+* `parent`   ↔ `GraphNode.parent`
+* `children` ↔ `GraphNode.children`
+
+Every method that can raise returns `Option NodeS` (`none` = an exception; the harness discards the
+half-modified Python object in that case, so no post-state is modelled for a raise).
+
+Python list primitives are transcribed literally: `pop(i)` (IndexError when out of range),
+`insert(i, v)` (index clamped to the length), `remove(v)` (first occurrence), slice insertion
+`l[p:p] = vs` (index clamped), `index(v)`.
+-/
 namespace Ptn.C02
+
+abbrev Id := Nat
+
+structure NodeS where
+  perm : List Nat
+  shp : List Nat
+  parent : Option Id
+  children : List Id
+deriving Repr, DecidableEq
+
+/-- `list.insert(i, v)`: the index is clamped to the length. -/
+def pyInsert (l : List Nat) (i : Nat) (v : Nat) : List Nat :=
+  l.insertIdx (min i l.length) v
+
+/-- `l[p:p] = vs`: slice insertion; `take`/`drop` clamp like Python does. -/
+def sliceInsert (l : List Nat) (p : Nat) (vs : List Nat) : List Nat :=
+  l.take p ++ vs ++ l.drop p
+
+/-- `v = l.pop(i)`: `(v, rest)`; IndexError ↦ `none`. -/
+def pyPop (l : List Nat) (i : Nat) : Option (Nat × List Nat) :=
+  match l[i]? with
+  | some v => some (v, l.eraseIdx i)
+  | none => none
+
+/-- `[l.pop(i) for _ in range(n)]`: `n` pops at the same index. -/
+def popMany (l : List Nat) (i : Nat) : Nat → Option (List Nat × List Nat)
+  | 0 => some ([], l)
+  | n + 1 =>
+    match pyPop l i with
+    | none => none
+    | some (v, l') =>
+      match popMany l' i n with
+      | none => none
+      | some (vs, l'') => some (v :: vs, l'')
+
+namespace NodeS
+
+def nlegs (s : NodeS) : Nat := s.perm.length
+/-- `nparents() = int(not is_root())`. -/
+def nparents (s : NodeS) : Nat := if s.parent.isSome then 1 else 0
+def nchildren (s : NodeS) : Nat := s.children.length
+/-- `nvirt_legs() = nneighbours()`. -/
+def nvirt (s : NodeS) : Nat := s.nparents + s.nchildren
+def isRoot (s : NodeS) : Bool := s.parent.isNone
+
+/-- `Node.shape = permute_iterator(_shape, _leg_permutation)`. -/
+def shape (s : NodeS) : List Nat := s.perm.map (fun i => s.shp.getD i 0)
+
+/-- A node as created by `Node(identifier=…)` and linked later; `empty` has no tensor yet. -/
+def empty : NodeS := ⟨[], [], none, []⟩
+
+/-- `link_tensor`. -/
+def linkTensor (s : NodeS) (tshape : List Nat) : NodeS :=
+  { s with perm := List.range tshape.length, shp := tshape }
+
+/-- `_reset_permutation`. -/
+def resetPermutation (s : NodeS) : NodeS :=
+  { s with shp := s.shape, perm := List.range s.perm.length }
+
+/-- `permute_iterator(it, permutation)` with its length assertion and IndexError. -/
+def permuteIterator (it : List Nat) (p : List Nat) : Option (List Nat) :=
+  if it.length ≠ p.length then none
+  else p.mapM (fun i => it[i]?)
+
+/-- `replace_tensor(tensor, permutation)` (only the shape of the tensor matters here). -/
+def replaceTensor (s : NodeS) (tshape : List Nat) (permutation : Option (List Nat)) : Option NodeS :=
+  match permutation with
+  | none => if s.shape = tshape then some s.resetPermutation else none
+  | some p =>
+    match permuteIterator tshape p with
+    | none => none
+    | some sh => if sh = s.shape then some { s with perm := p, shp := tshape } else none
+
+/-- `_open_leg_checks`: `true` = passes. (`nopen_legs() == 0` ⇔ `nlegs == nvirt` over the integers.) -/
+def openLegChecks (s : NodeS) (openLeg : Nat) : Bool :=
+  if s.nlegs = s.nvirt then false
+  else if openLeg < s.nvirt then false
+  else true
+
+/-- `open_leg_to_parent(parent_id, open_leg)`; `open_leg = None` is the early return. -/
+def openLegToParent (s : NodeS) (pid : Id) (openLeg : Option Nat) : Option NodeS :=
+  if !s.isRoot then none
+  else match openLeg with
+  | none => some s
+  | some k =>
+    if !s.openLegChecks k then none
+    else match pyPop s.perm k with
+    | none => none
+    | some (v, rest) => some { s with perm := pyInsert rest 0 v, parent := some pid }
+
+/-- `open_leg_to_child(child_id, open_leg)`. -/
+def openLegToChild (s : NodeS) (cid : Id) (k : Nat) : Option NodeS :=
+  if !s.openLegChecks k then none
+  else match pyPop s.perm k with
+  | none => none
+  | some (v, rest) =>
+    let newPosition := s.nparents + s.nchildren
+    some { s with perm := pyInsert rest newPosition v, children := s.children ++ [cid] }
+
+/-- Loop body of `open_legs_to_children` for one `(child_id, value)` of `actual_value`;
+    `k = child_dict[child_id]`, `nn = original_nneighbours`. -/
+def o2csStep (nn : Nat) (st : NodeS) (e : Id × Nat × Nat) : Option NodeS :=
+  let (cid, k, v) := e
+  let newPosition := st.nvirt
+  if k < nn then none
+  else if v ∉ st.perm then none                       -- `remove` raises ValueError
+  else some { st with perm := pyInsert (st.perm.erase v) newPosition v,
+                      children := st.children ++ [cid] }
+
+/-- `open_legs_to_children(child_dict)`: all values are read first, then the legs are moved one by
+    one (dict order = list order; Python dict keys are distinct). -/
+def openLegsToChildren (s : NodeS) (d : List (Id × Nat)) : Option NodeS :=
+  match d.mapM (fun (e : Id × Nat) => (s.perm[e.2]?).map (fun v => (e.1, e.2, v))) with
+  | none => none
+  | some vals => vals.foldlM (o2csStep s.nvirt) s
+
+/-- `parent_leg_to_open_leg`. -/
+def parentLegToOpenLeg (s : NodeS) : Option NodeS :=
+  if !s.isRoot then
+    match pyPop s.perm 0 with
+    | none => none
+    | some (v, rest) => some { s with perm := rest ++ [v], parent := none }
+  else some { s with parent := none }
+
+/-- `neighbour_index(node_id)` (NoConnectionException ↦ `none`). -/
+def neighbourIndex (s : NodeS) (nid : Id) : Option Nat :=
+  if s.parent = some nid then some 0
+  else if nid ∈ s.children then some (s.children.idxOf nid + s.nparents)
+  else none
+
+/-- `child_leg_to_open_leg(child_id)`. -/
+def childLegToOpenLeg (s : NodeS) (cid : Id) : Option NodeS :=
+  if cid ∉ s.children then none
+  else match s.neighbourIndex cid with
+  | none => none
+  | some index =>
+    match pyPop s.perm index with
+    | none => none
+    | some (v, rest) => some { s with perm := rest ++ [v], children := s.children.erase cid }
+
+/-- `children_legs_to_open_legs(children_id_list)`. -/
+def childrenLegsToOpenLegs (s : NodeS) (cs : List Id) : Option NodeS :=
+  cs.foldlM childLegToOpenLeg s
+
+/-- Body of `exchange_open_leg_ranges` once `open_1 = range(s1, e1)` is the one that starts first. -/
+def exchangeCore (s : NodeS) (s1 e1 s2 e2 : Nat) : Option NodeS :=
+  if ¬ e1 ≤ s2 then none                                  -- assert open_1.stop <= open_2.start
+  else match popMany s.perm s2 (e2 - s2) with
+  | none => none
+  | some (values2, l1) =>
+    match popMany l1 s1 (e1 - s1) with
+    | none => none
+    | some (values1, l2) =>
+      let l3 := sliceInsert l2 s1 values2
+      let difference := s2 - e1
+      let newPosition := s1 + (e2 - s2) + difference
+      some { s with perm := sliceInsert l3 newPosition values1 }
+
+/-- `exchange_open_leg_ranges(range(a0, a1), range(b0, b1))`. -/
+def exchangeOpenLegRanges (s : NodeS) (a0 a1 b0 b1 : Nat) : Option NodeS :=
+  if b0 < a0 then s.exchangeCore b0 b1 a0 a1 else s.exchangeCore a0 a1 b0 b1
+
+/-- `swap_two_child_legs(child_id1, child_id2)`. -/
+def swapTwoChildLegs (s : NodeS) (c1 c2 : Id) : Option NodeS :=
+  if c1 ∉ s.children then none
+  else if c2 ∉ s.children then none
+  else if c1 = c2 then some s
+  else
+    let i1 := s.children.idxOf c1
+    let i2 := s.children.idxOf c2
+    let j1 := i1 + s.nparents
+    let j2 := i2 + s.nparents
+    match s.perm[j1]?, s.perm[j2]? with
+    | some v1, some v2 =>
+      some { s with children := (s.children.set i1 c2).set i2 c1,
+                    perm := (s.perm.set j1 v2).set j2 v1 }
+    | _, _ => none
+
+end NodeS
+
+/-- The methods as one operation type (used by the driver and by `node_ops_preserve_perm`). -/
+inductive NodeOp where
+  | link (tshape : List Nat)
+  | reset
+  | replaceTensor (tshape : List Nat) (p : Option (List Nat))
+  | o2p (pid : Id) (k : Option Nat)
+  | o2c (cid : Id) (k : Nat)
+  | o2cs (d : List (Id × Nat))
+  | p2o
+  | c2o (cid : Id)
+  | cs2o (cs : List Id)
+  | xch (a0 a1 b0 b1 : Nat)
+  | swap (c1 c2 : Id)
+deriving Repr, DecidableEq
+
+def NodeS.step (s : NodeS) : NodeOp → Option NodeS
+  | .link sh => some (s.linkTensor sh)
+  | .reset => some s.resetPermutation
+  | .replaceTensor sh p => s.replaceTensor sh p
+  | .o2p pid k => s.openLegToParent pid k
+  | .o2c cid k => s.openLegToChild cid k
+  | .o2cs d => s.openLegsToChildren d
+  | .p2o => s.parentLegToOpenLeg
+  | .c2o cid => s.childLegToOpenLeg cid
+  | .cs2o cs => s.childrenLegsToOpenLegs cs
+  | .xch a0 a1 b0 b1 => s.exchangeOpenLegRanges a0 a1 b0 b1
+  | .swap c1 c2 => s.swapTwoChildLegs c1 c2
+
 end Ptn.C02
